@@ -399,6 +399,63 @@ theorem slice_refines (s : Stack) (hst : 0 < s.st) (a b c : Option Int) (hc : 0 
     rw [this, everyNth_nil]
 
 
+/-- `stack[i]` shows exactly the frame `frames[i]` (as in C07). -/
+theorem index_refines (s : Stack) (hst : 0 < s.st) (i : Int) :
+    match s.index i, pyIndex s.frames i with
+    | .ok s', some p => s'.frames = [p] ∧ s'.st = s.st ∧ s'.roi = s.roi
+    | .error e, none => e = .index
+    | _, _ => False := by
+  obtain ⟨N, hN⟩ : ∃ N : Nat, s.numFrames = N :=
+    ⟨s.numFrames.toNat, by have := numFrames_nonneg s hst; omega⟩
+  have hlen : s.frames.length = N := by rw [length_frames, hN]; simp
+  unfold Stack.index pyIndex
+  simp only
+  rw [hN, hlen]
+  generalize hidx : (if i ≥ 0 then i else i + (N : Int)) = idx
+  have single : ∀ ns : Int, Stack.frames { s with s0 := ns, s1 := ns + s.st } = [ns] := by
+    intro ns
+    unfold Stack.frames Stack.numFrames
+    simp only
+    have e : ns + s.st - ns - 1 = s.st - 1 := by omega
+    rw [e, Int.max_eq_right (by omega), Int.ediv_eq_zero_of_lt (by omega) (by omega)]
+    simp
+  by_cases hneg : idx < 0
+  · -- out of range below
+    have hlow : s.s0 + s.st * idx < s.s0 := by
+      have : s.st * idx < 0 := Int.mul_neg_of_pos_of_neg hst hneg
+      omega
+    rw [if_pos (Or.inl hlow)]
+    have : (if i < 0 then (if i + (N : Int) < 0 then none else s.frames[(i + (N : Int)).toNat]?)
+        else s.frames[i.toNat]?) = none := by
+      split at hidx
+      · omega
+      · rw [if_pos (by omega), if_pos (by omega)]
+    rw [this]
+  · have hge : 0 ≤ idx := by omega
+    have hiff := lt_numFrames_iff s hst idx hge
+    rw [hN] at hiff
+    have hnn : 0 ≤ s.st * idx := Int.mul_nonneg (Int.le_of_lt hst) hge
+    have hget : (if i < 0 then (if i + (N : Int) < 0 then none else s.frames[(i + (N : Int)).toNat]?)
+        else s.frames[i.toNat]?) = s.frames[idx.toNat]? := by
+      split at hidx
+      · rw [if_neg (by omega), hidx]
+      · rw [if_pos (by omega), if_neg (by omega), hidx]
+    rw [hget]
+    by_cases hin : idx < (N : Int)
+    · have h1 := hiff.mp hin
+      rw [if_neg (by omega), getElem?_frames s idx.toNat (by rw [hN]; simp; omega)]
+      refine ⟨?_, rfl, rfl⟩
+      rw [single]
+      have : ((idx.toNat : Nat) : Int) = idx := by omega
+      rw [this, Int.mul_comm]
+    · have h1 : ¬ (s.s0 + s.st * idx < s.s1) := fun h => hin (hiff.mpr h)
+      rw [if_pos (Or.inr (by omega)), List.getElem?_eq_none (by rw [hlen]; omega)]
+
+theorem pyIndex_map {α β} (g : α → β) (l : List α) (i : Int) : pyIndex (l.map g) i = (pyIndex l i).map g := by
+  unfold pyIndex
+  simp only [List.length_map, List.getElem?_map]
+  split_ifs <;> simp
+
 /-- The ROI lies inside a raw image of `H` rows and `W` columns and is not empty. -/
 def Roi.Within (r : Roi) (H W : Nat) : Prop :=
   0 ≤ r.xMin ∧ r.xMin < r.xMax ∧ r.xMax ≤ W ∧ 0 ≤ r.yMin ∧ r.yMin < r.yMax ∧ r.yMax ≤ H
